@@ -52,7 +52,7 @@ func run(r *vk.Run) {
 		"random: %d scenarios with 1..8 members, mixed cancellation-aware members, random entry point, and in 1 of 8 the caller's context cancelled mid-way. "+
 		"A case is distinct by (entry point, n, assignment, order, awareness, caller-cancel step); every case executes the real call and is compared with a contract evaluator written from the property statement.", maxUpTo, maxN, randomN),
 		"completion order = order in which member functions return; the harness releases one gate per quiescent point so it is an input, except for members that return on their own after their context was cancelled (this happens only after the outcome is decided)",
-		"a failing member answers (nil, unique error); a succeeding member answers (unique message, nil)",
+		"a failing member answers (nil, unique error); a succeeding member answers (unique message, nil); the nil-success scenarios add members that succeed without a message (nil, nil), judged on the verdict only",
 		"where a threshold strategy (Most/Any/UpTo) can no longer fail but members are still running, the statement is read as leaving cancellation open: both behaviours are accepted and counted",
 		"verdict for an empty group under Any/One/Fast/Race is not fixed by the statement (only that it must not panic): both are accepted and counted",
 		"Unspecified / out-of-range strategy: must satisfy the contract of at least one strategy",
@@ -64,6 +64,7 @@ func run(r *vk.Run) {
 	}
 	if r.Only == "" || strings.Contains(r.Only, "caller-gone") {
 		callerGone(r)
+		nilSuccess(r)
 	}
 
 	p := &pool{r: r}
